@@ -19,6 +19,7 @@ Definition W16 : N := 65536.
 Definition W32 : N := 4294967296.
 Definition W64 : N := 18446744073709551616.
 Definition u32 (x : N) : N := x mod W32.          (* `x as u32` *)
+Definition u16 (x : N) : N := x mod W16.          (* a value read as u16 *)
 Definition U32MAX : N := 4294967295.
 Definition U64MAX : N := 18446744073709551615.
 
@@ -217,3 +218,7 @@ Fixpoint alloc_paid_from (cost : N -> N) (ticks : list N) (es : list event) : bo
   | _ :: t => alloc_paid_from cost ticks t
   end.
 Definition alloc_paid (cost : N -> N) (evs : list event) : bool := alloc_paid_from cost [] (rev evs).
+
+(** every bounded-size copy/scan event is at most [b] bytes *)
+Definition fixed_le (b : N) (evs : list event) : bool :=
+  forallb (fun e => match e with EvFixed n => n <=? b | _ => true end) evs.
